@@ -5,6 +5,7 @@ import ast
 
 from .pymodel import Program, iter_events
 from .rules_c07 import _unfollowed
+from .idioms import diagonal_clear_target
 from .report import Run, AnalysisError
 
 PRIMARY = {"_threshold", "_non_local", "_similarity_measure"}
@@ -73,14 +74,7 @@ def f2(run: Run, prog: Program):
         if isinstance(st, ast.Assign) and isinstance(st.targets[0], ast.Subscript) and \
                 isinstance(st.targets[0].slice, ast.Compare):
             thr = (i, st)
-        if isinstance(st, ast.Assign) and isinstance(st.targets[0], ast.Subscript) and \
-                isinstance(st.value, ast.Constant) and st.value.value == 0:
-            src = ast.unparse(st.targets[0])
-            if ".flat[" in src and "+ 1" in src:
-                diag = (i, st)
-        if isinstance(st, ast.Expr) and isinstance(st.value, ast.Call) and \
-                ast.unparse(st.value.func) == "np.fill_diagonal" and \
-                len(st.value.args) > 1 and ast.unparse(st.value.args[1]) == "0":
+        if diagonal_clear_target(st) is not None:
             diag = (i, st)
     ret = [st for st in body if isinstance(st, ast.Return)]
     ok_thr = thr is not None
@@ -101,8 +95,8 @@ def f2(run: Run, prog: Program):
                 f"{f.qualname} links pairs with `{ast.unparse(cmp_)}`; the network must "
                 f"link exactly the pairs whose similarity *exceeds* the threshold "
                 f"(`{f.params[1]} > {f.params[2]}`)")
-    same = diag is not None and ast.unparse(thr[1].targets[0].value) in \
-        ast.unparse(diag[1])
+    same = diag is not None and ast.unparse(thr[1].targets[0].value) == \
+        diagonal_clear_target(diag[1])
     okd = diag is not None and diag[0] > thr[0] and same and \
         (not ret or body.index(ret[0]) > diag[0])
     run.oblige("F2", "diagonal-cleared", okd, sample={"where": f.where})
